@@ -316,6 +316,8 @@ class Parser:
                 return N("assign", op=op, lhs=lhs, rhs=rhs)
         if (self.at("..") or self.at("..=")) and self.peek().kind == "p":
             incl = self.next().text == "..="
+            if self.at("]") or self.at(")"):
+                return N("range", lo=lhs, hi=None, inclusive=incl)      # phase 5: `a..`
             rhs = self.binary(0, ns)
             return N("range", lo=lhs, hi=rhs, inclusive=incl)
         return lhs
@@ -389,11 +391,21 @@ class Parser:
                     e = N("field", e=e, name=t.text)
                     continue
                 name = self.ident()
+                targs = []
                 if self.at("::"):
-                    self.fail("turbofish on a method call")
+                    # phase 5: `x.parse::<T>()`
+                    self.next()
+                    self.expect("<")
+                    while not self.at(">"):
+                        targs.append(self.type_())
+                        if not self.accept(","):
+                            break
+                    self.expect(">")
                 if self.at("("):
-                    e = N("mcall", recv=e, name=name, args=self.call_args())
+                    e = N("mcall", recv=e, name=name, args=self.call_args(), targs=targs)
                 else:
+                    if targs:
+                        self.fail("generic arguments on a field")
                     e = N("field", e=e, name=name)
             else:
                 return e
@@ -616,6 +628,7 @@ class Parser:
         if t.text == "loop":
             self.next()
             return N("loop", body=self.block())
+        # ---- tree-builder extension and phase 5 (lexer), identical on both sides: `while`, `while let`, `break`, `continue`
         if t.text == "while":
             self.next()
             if self.at("let"):
@@ -631,8 +644,8 @@ class Parser:
             if not (self.at(";") or self.at("}") or self.at(",")):
                 self.fail(f"`{t.text}` with a label or a value")
             return N(t.text)
-        # ---- end of the tree-builder extension
-        if t.text in ("while", "loop", "break", "continue", "unsafe", "move", "async", "await"):
+        # ---- end of the tree-builder extension / phase 5
+        if t.text in ("unsafe", "move", "async", "await"):
             self.fail(f"`{t.text}` expression")
         # path, macro call, struct literal
         segs = [self.ident()]
@@ -1062,7 +1075,7 @@ def render(n, ind, paren=False):
     if isinstance(n, Seq):
         lines = []
         for kind, pat, v in n.stmts:
-            arrow = "←" if kind == "bind" else ":="      # kinds `let` and `mut` are both plain `let`
+            arrow = "←" if kind in ("bind", "mutbind") else ":="      # kinds `let` and `mut` are both plain `let`
             lines.append(sp + "  let " + pat + " " + arrow + " " + render(v, ind + 2, False))
         lines.append(sp + "  " + render(n.final, ind + 2, False))
         if n.eff:
@@ -1078,7 +1091,7 @@ def hoistable(st):
     """a statement that may be moved into the enclosing sequence: binds a temporary, or is the rebinding made by a
     mutation rule (kind `mut`, or — tree-builder extension — a `Rebind` pattern), which is meant to be visible afterwards"""
     kind, p, _ = st
-    return kind == "mut" or p.startswith(TEMP) or p.startswith("_") or isinstance(p, Rebind)
+    return kind in ("mut", "mutbind") or p.startswith(TEMP) or p.startswith("_") or isinstance(p, Rebind)
 
 
 # ---- tree-builder extension: rebinding of a mutable place
@@ -1119,7 +1132,7 @@ def mkseq(stmts, final):
     """sequence; flattens a final sequence whose own bindings are temporaries"""
     if not stmts:
         return final
-    eff = final.eff or any(k == "bind" for k, _, _ in stmts)
+    eff = final.eff or any(k in ("bind", "mutbind") for k, _, _ in stmts)
     if eff and not final.eff and has_rebind(final):   # (tree-builder extension: keep the rebindings at statement level)
         stmts, final = stmts + final.stmts, final.final
     if eff:
@@ -1135,6 +1148,7 @@ def mkseq(stmts, final):
 
 # Rust type name -> Lean type of the Model (generic parameter `NumericTypes` is fixed to DefaultNumericTypes)
 TYPE_MAP = {
+    "char": "Char", "Token": "Token", "PartialToken": "PartialToken", "Peekable": "(List Char)", "Chars": "(List Char)",
     "usize": "Nat", "u64": "UInt64", "u32": "UInt32", "bool": "Bool", "DefaultNumericTypes": "Unit", "String": "Str", "str": "Str", "i64": "Int64", "f64": "Float",
     "Value": "Value", "ValueType": "ValueType", "Operator": "Operator", "Node": "Node", "EvalexprError": "Err",
     "TupleType": "(List Value)", "EmptyType": "Unit", "Int": "Int64", "Float": "Float",
@@ -1211,21 +1225,28 @@ def build_enum_map():
               "BuiltinFunctionsCannotBeDisabled", "OutOfBoundsAccess", "RandNotEnabled"]:
         err[v] = ("Err." + camel(v), "unit", [])
     m["EvalexprError"] = err
-    # ---- tree-builder extension: `Token` of src/token/mod.rs ↦ Model inductive `Token`
-    tok = {}
-    for v in ["Plus", "Minus", "Star", "Slash", "Percent", "Hat", "Eq", "Neq", "Gt", "Lt", "Geq", "Leq", "And", "Or", "Not",
-              "LBrace", "RBrace", "Assign", "PlusAssign", "MinusAssign", "StarAssign", "SlashAssign", "PercentAssign",
-              "HatAssign", "AndAssign", "OrAssign", "Comma", "Semicolon"]:
-        tok[v] = ("Token." + camel(v), "unit", [])
-    for v in ["Identifier", "Float", "Int", "Boolean", "String"]:
-        tok[v] = ("Token." + camel(v), "tuple", [None])
-    m["Token"] = tok
+    # (tree-builder extension: the `Token` table that stood here is phase 5's `add_token_enums` below — same constructor names)
     return m
 
 
-ENUM_MAP = build_enum_map()
-ENUM_FILES = {"Value": "value/mod.rs", "ValueType": "value/value_type.rs", "Operator": "operator/mod.rs",
-              "EvalexprError": "error/mod.rs", "Token": "token/mod.rs"}
+# ---- phase 5 (lexer): Token / PartialToken (constructor names of translate.py's tables)
+def add_token_enums(m):
+    tok = {}
+    for v, lean in T.TOKEN.items():
+        tok[v] = ("Token." + lean, "tuple" if v in ("Identifier", "Float", "Int", "Boolean", "String") else "unit",
+                  [None] if v in ("Identifier", "Float", "Int", "Boolean", "String") else [])
+    m["Token"] = tok
+    par = {"Token": ("PartialToken.token", "tuple", [None]), "Literal": ("PartialToken.literal", "tuple", [None])}
+    for v, lean in T.PARTIAL.items():
+        par[v] = ("PartialToken" + lean, "unit", [])
+    m["PartialToken"] = par
+    m["EvalexprError"]["UnmatchedPartialToken"] = ("Err.unmatchedPartialToken", "struct", ["first", "second"])
+    return m
+
+
+ENUM_MAP = add_token_enums(build_enum_map())
+ENUM_FILES = {"Token": "token/mod.rs", "PartialToken": "token/mod.rs", "Value": "value/mod.rs", "ValueType": "value/value_type.rs", "Operator": "operator/mod.rs",
+              "EvalexprError": "error/mod.rs"}
 # struct fields: (Rust struct, field) -> Lean projection
 FIELD_MAP = {("Node", "operator"): "Evalexpr.Node.op", ("Node", "children"): "Evalexpr.Node.children",
              ("NodeIter", "stack"): "Rs.IterStack.stack", ("OperatorIterMut", "stack"): "Rs.IterStack.stack",
@@ -1278,16 +1299,24 @@ PRIM_METHODS = {
 # method names that exist both as a std method (e.g. `Ord::min` on the int type) and as a method of the numeric traits
 # (`EvalexprFloat::min`): rendered as a Prelude class method; the translated trait impl registers the instance of its type
 CLASS_TRAIT_METHODS = {("min", 1): ("Rs.min", "Rs.Min"), ("max", 1): ("Rs.max", "Rs.Max")}
+# phase 5: associated std functions of the primitives: `i64::from_str` (FromStr), `i64::from_str_radix(_, 16)`
+PRIM_PATHS = {("i64", "from_str"): (1, "Rs.i64_from_str"), ("i64", "from_str_radix"): (2, "Rs.i64_from_str_radix")}
 TRANSLATED_TRAITS = ("Iterator", "EvalexprInt", "EvalexprFloat", "EvalexprNumericTypes", "IterateVariablesContext")
 # free functions / associated functions, by path suffix
 BOUNDARY_PATHS = {
-    ("token", "tokenize"): (1, "Evalexpr.tokenize"),
+    # (tree-builder extension, after phase 5: `token::tokenize` is no longer a boundary call, it is translated; see FUEL_CALLS)
     # (tree-builder extension: `tree::tokens_to_operator_tree` is no longer a boundary call, it is translated; see CONVERGED_CALLS)
 }
 # ---- tree-builder extension: calls of a may-diverge (`Option`-valued) translated function from code that is translated as total:
 # (file, fn name) of the callee -> rendered `Rs.converged "<fn>: diverges" (callee args)`: divergence of the callee is a designated
 # panic outcome that no Model function produces, so agreement with the Model includes the callee's termination
 CONVERGED_CALLS = {("tree/mod.rs", "tokens_to_operator_tree")}
+# ---- tree-builder extension (after phase 5): calls of a FUEL-indexed translated function (phase 4 / 5 loops) from code that is
+# translated as total: (file, fn name) of the callee -> index of the `&str` argument whose length gives the fuel; rendered
+# `Gen.f (Rs.fuel_chars arg) args…` with `Rs.fuel_chars s = s.length + 1`. The fuel expression is NOT trusted to suffice: with too
+# little fuel the callee yields its out-of-fuel panic, which no Model function produces, so the agreement theorem of the caller
+# (through `fn_tokenize_agree : s.length < fuel → Gen.tokenize fuel s = tokenize s`) is where sufficiency is proved.
+FUEL_CALLS = {("token/mod.rs", "tokenize"): 0}
 BOUNDARY_NOTES = [
     "`==` / `!=` on Value (derived PartialEq)            ↦ Evalexpr.Value.beq          (Prelude: Rs.PEq Value)",
     "`<` `<=` `>` `>=` on String                          ↦ Evalexpr.strLt              (Prelude: Rs.POrd Str)",
@@ -1303,6 +1332,10 @@ STD_METHODS = {
     ("len", 0): ("Rs.len", None), ("is_empty", 0): ("Rs.is_empty", None), ("first", 0): ("Rs.first", None),
     ("last", 0): ("Rs.last", None), ("get", 1): ("Rs.get", None), ("unwrap_or", 1): ("Rs.unwrap_or", None),
     ("map", 1): ("Rs.map", None), ("unwrap", 0): ("Rs.unwrap", "panic"),
+    ("chars", 0): ("Rs.chars", None), ("peekable", 0): ("Rs.iter", None), ("peek", 0): ("Rs.peek", None),
+    ("is_whitespace", 0): ("Evalexpr.isWhitespace", None), ("is_ascii_digit", 0): ("Evalexpr.F64.isDigit", None),
+    ("strip_prefix", 1): ("Rs.strip_prefix", None), ("ok", 0): ("Rs.ok", None), ("flatten", 0): ("Rs.flatten", None),
+    ("then", 1): ("Rs.bool_then", None), ("starts_with", 1): ("Rs.starts_with", None),
     ("iter", 0): ("Rs.iter", None), ("iter_mut", 0): ("Rs.iter", None), ("into_iter", 0): ("Rs.iter", None), ("keys", 0): ("Rs.keys", None),
     ("to_lowercase", 0): ("Rs.to_lowercase", None), ("to_uppercase", 0): ("Rs.to_uppercase", None), ("trim", 0): ("Rs.trim", None),
     ("contains", 1): ("Rs.contains", None), ("ok_or", 1): ("Rs.ok_or", None), ("as_str", 0): ("Rs.clone", None),
@@ -1311,9 +1344,11 @@ STD_METHODS = {
 }
 # ---- tree-builder extension: mutators that return a value: (name, nargs) -> Prelude function returning (value, new container)
 VALUE_MUTATORS = {("pop", 0): "Rs.pop"}
-STD_MUTATORS = {("push_str", 1): "Rs.push_str", ("push", 1): "Rs.push", ("clear", 0): "Rs.clear", ("insert", 2): "Rs.insert"}
-UNIT_MUTATORS = {"push_str", "push", "clear"}
-STD_PATHS = {("iter", "empty"): (0, "Rs.iter_empty"), ("Default", "default"): (0, "Rs.default"), ("From", "from"): (1, "Rs.into"),
+STD_MUTATORS = {("push_str", 1): "Rs.push_str", ("push", 1): "Rs.push", ("clear", 0): "Rs.clear", ("insert", 2): "Rs.insert",
+                ("extend", 1): "Rs.extend"}
+UNIT_MUTATORS = {"push_str", "push", "clear", "extend"}
+STD_PATHS = {("String", "new"): (0, "Rs.Vec.new"),
+             ("iter", "empty"): (0, "Rs.iter_empty"), ("Default", "default"): (0, "Rs.default"), ("From", "from"): (1, "Rs.into"),
              ("BitAnd", "bitand"): (2, "Rs.bitand"), ("BitOr", "bitor"): (2, "Rs.bitor"), ("BitXor", "bitxor"): (2, "Rs.bitxor"),
              ("Not", "not"): (1, "Rs.bitnot"),
              ("Vec", "new"): (0, "Rs.Vec.new"), ("String", "with_capacity"): (1, "Rs.String.with_capacity"),
@@ -1325,13 +1360,12 @@ BINOPS = {"==": "Rs.eq", "!=": "Rs.ne", "<": "Rs.lt", "<=": "Rs.le", ">": "Rs.gt
 # source file -> generated module (in dependency order)
 MODULES = [("value/value_type.rs", "FnValueType"), ("error/mod.rs", "FnError"), ("value/mod.rs", "FnValue"),
            ("value/numeric_types/default_numeric_types.rs", "FnNumeric"), ("function/builtin.rs", "FnBuiltin"),
-           ("context/mod.rs", "FnContext"),
-           ("operator/mod.rs", "FnOperator"), ("tree/mod.rs", "FnTree"), ("tree/iter.rs", "FnIter"), ("interface/mod.rs", "FnInterface"),
-           ("token/mod.rs", "FnToken")]   # (tree-builder extension: FnToken)
+           ("token/mod.rs", "FnLexer"), ("context/mod.rs", "FnContext"),
+           ("operator/mod.rs", "FnOperator"), ("tree/mod.rs", "FnTree"), ("tree/iter.rs", "FnIter"), ("interface/mod.rs", "FnInterface")]
 # finer than per file where the call graph needs it: `impl EvalexprNumericTypes for DefaultNumericTypes` (the casts) is used by
 # value/mod.rs, whose `Value::from_int` is used by the `impl EvalexprInt for i64` of the same file
 MODULE_OVERRIDES = {("value/numeric_types/default_numeric_types.rs", "DefaultNumericTypes"): "FnNumericTypes"}
-MODULE_ORDER = ["FnValueType", "FnNumericTypes", "FnError", "FnValue", "FnNumeric", "FnBuiltin", "FnContext",
+MODULE_ORDER = ["FnValueType", "FnNumericTypes", "FnError", "FnValue", "FnNumeric", "FnBuiltin", "FnLexer", "FnContext",
                 "FnOperatorTables", "FnToken",   # (tree-builder extension)
                 "FnOperator", "FnTree",
                 "FnTreeBuild",   # (tree-builder extension)
@@ -1342,6 +1376,8 @@ TREE_BUILD_FNS = {("tree/mod.rs", "Node", n): "FnTreeBuild" for n in
                   ("new", "root_node", "has_enough_children", "has_too_many_children", "insert_back_prioritized")}
 TREE_BUILD_FNS.update({("tree/mod.rs", None, n): "FnTreeBuild" for n in
                        ("collapse_root_stack_to", "collapse_all_sequences", "tokens_to_operator_tree")})
+# (the three token predicates the tree builder uses; the rest of token/mod.rs is the lexer, module FnLexer, phase 5)
+TREE_BUILD_FNS.update({("token/mod.rs", "Token", n): "FnToken" for n in ("is_leftsided_value", "is_rightsided_value", "is_assignment")})
 TREE_BUILD_FNS.update({("operator/mod.rs", "Operator", n): "FnOperatorTables" for n in
                        ("value", "variable_identifier_write", "variable_identifier_read", "function_identifier", "precedence",
                         "is_left_to_right", "is_sequence", "is_leaf", "max_argument_amount", "is_unary")})
@@ -1412,6 +1448,7 @@ class GenFn:
         self.done = False
         self.recursive = False
         self.instance = None
+        self.mut_params, self.muts, self.conv, self.res0, self.has_loop, self.mut_self = [], [], None, False, False, False
         # free functions are referenced through the namespace, so that a method of the same name cannot capture them
         self.ref_name = lean_name if "." in lean_name else "Gen." + lean_name
         # ---- tree-builder extension
@@ -1441,6 +1478,36 @@ class World:
             for k, v in enums.items():
                 self.enums[k] = (f, v)
         self.check_enum_tables()
+
+    def is_fuel(self, item):
+        """does the function contain a loop that needs fuel (`loop`, `while`), or call a free function that does"""
+        if not hasattr(self, "_fuel"):
+            def has(it, words):
+                return any(t.kind == "id" and t.text in words for t in it.body_toks)
+            # (tree-builder extension: the functions of the tree-builder modules are not fuel-indexed — `Rs.loopFix` — and calls of
+            # them do not make the caller fuel-indexed)
+            t2 = {id(it) for it in self.items if (it.file, it.impl_type, it.name) in TREE_BUILD_FNS}
+            fuel = {id(it) for it in self.items if has(it, ("loop", "while")) and id(it) not in t2}
+            names = {it.name for it in self.items if id(it) in fuel and it.impl_type is None}
+            changed = True
+            while changed:
+                changed = False
+                for it in self.items:
+                    if id(it) in fuel or id(it) in t2:
+                        continue
+                    tk = it.body_toks
+                    for i, t in enumerate(tk):
+                        bnd = (i >= 2 and tk[i - 1].text == "::" and (tk[i - 2].text, t.text) in BOUNDARY_PATHS) or \
+                            (it.file != "token/mod.rs" and any(t.text == n_ for _, n_ in FUEL_CALLS))   # (tree-builder extension: FUEL_CALLS)
+                        if t.kind == "id" and t.text in names and i + 1 < len(tk) and tk[i + 1].text in ("(", "::") \
+                                and not (i > 0 and tk[i - 1].text == ".") and not bnd:
+                            fuel.add(id(it))
+                            if it.impl_type is None:
+                                names.add(it.name)
+                            changed = True
+                            break
+            self._fuel = fuel
+        return id(item) in self._fuel
 
     def check_enum_tables(self):
         """the constructor table must agree with the enum declarations of this source tree"""
@@ -1528,6 +1595,12 @@ class FnTr:
         self.entry_refs = {}      # local name -> (field of self, key term): `&mut` into a map entry obtained by get_mut
         self.dead_refs = set()
         self.in_closure = False
+        self.nlit = 0
+        self.in_value_branch = False
+        self.loopb = []           # phase 5: the state tuples of the enclosing `Rs.loopB` loops
+        self.cursors = set()      # phase 5: locals / parameters that are character-iterator cursors
+        self.places = {}          # phase 5: name -> (vector local, constructor) for `&mut` into the payload of its last element
+        self.last_call_muts = None
         self.rank = 0
         self.order_of = {}        # local name -> declaration rank (the loop / branch state tuple is in declaration order)
         self.loop_depth = 0
@@ -1614,6 +1687,9 @@ class FnTr:
         if name in GENERIC_TYPE_MAP and len(args) == 1:
             s = GENERIC_TYPE_MAP[name] + " " + self.ltype(args[0], True)
             return "(" + s + ")" if paren else s
+        if name == "Result" and len(args) == 2 and args[1].kind == "ttuple" and not args[1].items:
+            s_ = "Except Unit " + self.ltype(args[0], True)        # phase 5: `Result<T, ()>`
+            return "(" + s_ + ")" if paren else s_
         if name in ("EvalexprResult", "Result") and args:
             if name == "Result" and not (len(args) == 2 and type_head(args[1]) in ("EvalexprError", "Error")):
                 self.fail("Result with a foreign error type")
@@ -1623,8 +1699,44 @@ class FnTr:
             return "(Res Value)" if paren else "Res Value"
         self.fail("type `" + "::".join(s for s, _ in segs) + "` has no Model counterpart")
 
+    def param_mutated(self, name):
+        """is the `&mut` parameter `name` (possibly) written through in the body: assigned, receiver of a mutating method,
+        or passed on to a call"""
+        body = Parser(self.item.body_toks, self.item.where).block()
+        muta = {k[0] for k in STD_MUTATORS} | {"pop", "swap_remove", "next", "extend", "insert", "remove", "get_mut", "last_mut"}
+
+        def root(e):
+            while e.kind in ("field", "index", "paren", "ref", "unary"):
+                e = e.e if e.kind != "index" else e.a
+            return e.segs[0] if e.kind == "path" and len(e.segs) == 1 else None
+
+        def walk(n):
+            if isinstance(n, N):
+                if n.kind == "assign" and root(n.lhs) == name:
+                    return True
+                if n.kind == "mcall" and n.name in muta and root(n.recv) == name:
+                    return True
+                if n.kind in ("call", "mcall") and any(root(a) == name for a in n.args):
+                    return True
+                return any(walk(v) for v in n.__dict__.values())
+            if isinstance(n, (list, tuple)):
+                return any(walk(v) for v in n)
+            return False
+        return walk(body)
+
+    def is_cursor_type(self, ty):
+        """`&mut Iter` (Iter: Iterator<Item = char>), `&mut Peekable<Chars>`"""
+        if not (ty.kind == "tref" and ty.mut and ty.inner.kind == "tpath"):
+            return False
+        name = ty.inner.segs[-1][0]
+        if name in ("Peekable", "Chars"):
+            return True
+        b = self.generic_bound(name)
+        return b is not None and "Iterator" in b and "char" in b
+
     def signature(self):
         it, g = self.item, self.g
+        g.mut_params = []
         params = []
         out_params = []
         if it.self_kind:
@@ -1649,12 +1761,20 @@ class FnTr:
                     nm = "_"
                 else:
                     self.fail("parameter pattern")
-                params.append((nm, self.ltype(ty, False)))
-                if self.t2 and ty.kind == "tref" and ty.mut and it.impl_trait != "From":   # (tree-builder extension, tree-builder modules only: a `&mut` parameter is also returned; not for `From::from`, whose shape is fixed: α → β)
+                if self.is_cursor_type(ty):
+                    # phase 5: `&mut` char iterator: a cursor (the remaining characters), handed back with the result
+                    params.append((nm, "(List Char)"))
+                    g.mut_params.append(nm)
+                elif self.t2 and ty.kind == "tref" and ty.mut and it.impl_trait != "From":   # (tree-builder extension, tree-builder modules only: a `&mut` parameter is also returned)
                     if nm == "_":
                         self.fail("`&mut` parameter without a name")
+                    params.append((nm, self.ltype(ty, False)))
                     g.out_idx.append(k)
                     out_params.append((nm, self.ltype(ty, True)))
+                elif ty.kind == "tref" and ty.mut and it.impl_trait != "From" and self.param_mutated(nm):
+                    self.fail("`&mut` parameter that is neither the context nor a character iterator")
+                else:
+                    params.append((nm, self.ltype(ty, False)))
             k += 1
         g.params = params
         if it.ret is not None and it.ret.kind == "tref" and it.ret.mut:   # (tree-builder extension)
@@ -1663,18 +1783,30 @@ class FnTr:
         g.ret_is_res = g.ret.startswith("Res ")
         g.mut_self = it.self_kind == "&mut"
         g.outs = ["self"] if g.mut_self else []   # (tree-builder extension)
-        # (tree-builder extension: in the tree-builder modules a `loop` is `Rs.loopFix`, not fuel-indexed)
-        g.has_loop = (not self.t2) and any(t.kind == "id" and t.text == "loop" for t in it.body_toks)
-        if g.has_loop:
-            # a function with a `loop`: fuel-indexed; `Res`: `.error (.panic …)` when the fuel runs out (or on a panic)
+        # (tree-builder extension: in the tree-builder modules loops are `Rs.loopFix`, not fuel-indexed)
+        g.has_loop = (not self.t2) and self.w.is_fuel(it)
+        # ---- phase 5: the return convention. `muts` = what the function hands back besides its value: `self` of a
+        # `&mut self` method, then the `&mut` cursor parameters
+        g.muts = (["self"] if g.mut_self else []) + list(g.mut_params)
+        mut_types = ([TYPE_MAP[it.impl_type]] if g.mut_self else []) + [t for n, t in params if n in g.mut_params]
+        g.res0 = g.ret_is_res                      # the Rust return type is a Result
+        g.conv = None
+        if g.has_loop or g.mut_params:
             if g.is_ctx:
-                self.fail("`loop` in a function with a context parameter")
-            params.insert(0, ("fuel", "Nat"))
-            inner = self.ltype(it.ret, True)
-            if g.mut_self:
-                inner = f"({inner} × {TYPE_MAP[it.impl_type]})"
-            g.ret = "Res " + inner
-            g.ret_is_res = True
+                self.fail("`loop` / `&mut` parameter in a function with a context parameter")
+            if g.has_loop:
+                # fuel-indexed: `.error (.panic …)` when the fuel runs out (or on a panic)
+                params.insert(0, ("fuel", "Nat"))
+            payload = self.ltype(it.ret.segs[-1][1][0], True) if g.res0 and it.ret.kind == "tpath" and it.ret.segs[-1][1] else \
+                ("Value" if g.res0 else self.ltype(it.ret, True))
+            if g.muts:
+                payload = "(" + " × ".join([payload] + mut_types) + ")"
+            if g.res0 or g.has_loop:
+                g.ret, g.ret_is_res = "Res " + payload, True
+                g.conv = "attach" if g.res0 else "ok"
+            else:
+                g.ret, g.ret_is_res = payload, False
+                g.conv = "pair"
             g.params = params
             return
         if g.mut_self:
@@ -1683,6 +1815,7 @@ class FnTr:
             # `&mut self`: the function also returns the new `self`; no `?` / panics inside (no Model image)
             g.ret = f"{self.ltype(it.ret, True)} × {TYPE_MAP[it.impl_type]}"
             g.ret_is_res = False
+            g.conv = "pair"
         # ---- tree-builder extension: `&mut` parameters (and `&mut self`) are returned next to the result, in parameter order
         if out_params and g.is_ctx:
             self.fail("`&mut` parameters in a function with a context parameter")
@@ -1692,6 +1825,20 @@ class FnTr:
             g.ret = " × ".join([self.ltype(it.ret, True)] + tys)
             g.ret_is_res = False
         g.res_out = bool(g.outs) and self.ltype(it.ret, False).startswith("Res ")
+        if self.t2:
+            g.conv = None       # the tree-builder modules use `g.outs` (see e_return / translate), not phase 5's convention
+
+    def ret_value(self, a):
+        """the Lean value of the function for the Rust return value `a` (an L node), with the current `muts`"""
+        g = self.g
+        if g.conv is None:
+            return a
+        tup = [Atom(lname(m)) for m in g.muts]
+        if g.conv == "pair":
+            return Tup([a] + tup)
+        if g.conv == "ok":
+            return App("Except.ok", [Tup([a] + tup) if tup else a])
+        return App("Rs.attach", [a, Tup(tup) if len(tup) > 1 else tup[0]]) if tup else a
 
     # ---- scopes
     def push(self, names=()):
@@ -1847,7 +1994,7 @@ class FnTr:
             n = n.final
         # ---- end of the tree-builder extension
         if not n.eff:
-            if isinstance(n, Seq) and any(st[0] == "mut" for st in n.stmts) and all(hoistable(st) for st in n.stmts):
+            if isinstance(n, Seq) and any(st[0] in ("mut", "mutbind") for st in n.stmts) and all(hoistable(st) for st in n.stmts):
                 stmts.extend(n.stmts)       # the rebindings of a mutating expression stay visible
                 return n.final
             return n
@@ -1867,6 +2014,8 @@ class FnTr:
         for x in exprs:
             atoms.append(self.atomize(x, stmts))
             marks.append(len(stmts))
+        if self.last_call_muts is not None:
+            self.fail("a call with `&mut` cursor arguments whose `Result` is not unwrapped by `?`")
         self.check_eval_order(atoms, marks, stmts)   # (tree-builder extension)
         return mkseq(stmts, build(atoms))
 
@@ -1923,10 +2072,33 @@ class FnTr:
         if e.lk == "bool":
             return Atom(e.text)
         if e.lk == "str":
-            if "\\" in e.text or '"' in e.text:
-                self.fail("string literal with escapes")
-            return Atom('cl!"' + e.text + '"')
+            return Atom(self.str_lit(e.text))
+        if e.lk == "char":
+            return Atom(self.char_lit(e.text))
         self.fail("literal " + e.text)
+
+    # ---- phase 5: character and string literals
+    def char_lit(self, text):
+        if text.startswith("\\"):
+            if text[1:] not in ("n", "t", "r", "\\", "'", '"', "0"):
+                self.fail("character escape " + text)
+            return {"\\0": "(Char.ofNat 0)"}.get(text, "'" + text + "'")
+        if len(text) != 1 or ord(text) > 126 or ord(text) < 32:
+            self.fail("character literal " + text)
+        return "'" + text + "'"
+
+    def str_lit(self, text):
+        i = 0
+        while i < len(text):
+            if text[i] == "\\":
+                if i + 1 >= len(text) or text[i + 1] not in ('\\', '"', "n", "t", "r"):
+                    self.fail("string literal escape in " + text)
+                i += 2
+            else:
+                if text[i] == '"' or ord(text[i]) > 126:
+                    self.fail("string literal " + text)
+                i += 1
+        return 'cl!"' + text + '"'        # Rust's escapes \\ \" \n \t \r are Lean's
 
     def e_tuple(self, e):
         self.no_bare_alias(e.items, "a tuple")   # (tree-builder extension)
@@ -1952,6 +2124,16 @@ class FnTr:
             self.fail("binary operator " + e.op)
         return self.with_args([e.l, e.r], lambda a: App(BINOPS[e.op], a))
 
+    def src_tokens(self, e):
+        """tokens of a simple `path[path..]` expression (for the panic site of a slice)"""
+        def name(x):
+            while x.kind in ("paren", "ref"):
+                x = x.e
+            if x.kind == "path" and len(x.segs) == 1:
+                return x.segs[0]
+            self.fail("slice indexing of something that is not a plain variable")
+        return [T.Tok("id", name(e.a), 0), T.Tok("p", "[", 0), T.Tok("id", name(e.i.lo), 0), T.Tok("p", "..", 0), T.Tok("p", "]", 0)]
+
     def e_range(self, e):
         head = "Rs.RangeInclusive.mk" if e.inclusive else "Rs.Range.mk"
         return self.with_args([e.lo, e.hi], lambda a: App(head, a))
@@ -1963,23 +2145,57 @@ class FnTr:
             self.fail("`as` cast to " + ty)
         return self.with_args([e.e], lambda a: Atom("(" + render(App("Rs.cast", a), 0) + " : " + ty + ")"))
 
+    def proj_rebinds(self, t, names):
+        """rebindings of the cursors from the tuple `t` = (value, c1, …, cn)"""
+        out = []
+        proj = t + ".2"
+        for k, nm in enumerate(names):
+            last = k == len(names) - 1
+            out.append(("mut", lname(nm), Atom(proj if last else proj + ".1")))
+            proj += ".2"
+        return out
+
     def e_try(self, e):
         self.need_res("`?`")
-        return self.with_args([e.e], lambda a: self.flow_app("Rs.try", a))
+        if self.t2:   # (tree-builder extension: `?` that returns the current `&mut` values)
+            return self.with_args([e.e], lambda a: self.flow_app("Rs.try", a))
+        self.last_call_muts = None
+        stmts = []
+        a = self.atomize(e.e, stmts)
+        muts, self.last_call_muts = self.last_call_muts, None
+        if muts:
+            # phase 5: a callee with `&mut` cursor parameters: its result carries the advanced cursors
+            t = self.temp()
+            stmts.append(("bind", t, App("Rs.try", [a], eff=True)))
+            stmts.extend(self.proj_rebinds(t, muts))
+            return Seq(stmts, PureM(Atom(t + ".1")), True, False)
+        return mkseq(stmts, App("Rs.try", [a], eff=True))
 
     def e_return(self, e):
-        wrap = (lambda a: Tup([a] + [Atom(lname(o)) for o in self.g.outs])) if self.g.outs else (lambda a: a)   # (tree-builder extension: all outs; was `self` only)
-        if getattr(self.g, "has_loop", False) and not self.in_closure:
-            inner = wrap
-            wrap = lambda a: App("Except.ok", [inner(a)])
-        if e.e is not None:
-            self.no_bare_alias([e.e], "`return`")   # (tree-builder extension)
+        if self.t2:   # (tree-builder extension: all outs; aliases must not escape)
+            wrap_t2 = (lambda a: Tup([a] + [Atom(lname(o)) for o in self.g.outs])) if self.g.outs else (lambda a: a)
+            if e.e is None:
+                return App("Rs.ret", [wrap_t2(Tup([]))], eff=True)
+            self.no_bare_alias([e.e], "`return`")
+            return self.with_args([e.e], lambda a: App("Rs.ret", [wrap_t2(a[0])], eff=True))
+
+        def wrap(a):
+            v = a if self.in_closure else self.ret_value(a)
+            for _ in self.loopb:            # inside `while` / `for`-over-cursor bodies the return leaves the loop(s) first
+                v = App("Rs.LoopOut.ret", [v])
+            return v
         if e.e is None:
             return App("Rs.ret", [wrap(Tup([]))], eff=True)
         return self.with_args([e.e], lambda a: App("Rs.ret", [wrap(a[0])], eff=True))
 
     def e_index(self, e):
         self.need_res("indexing")
+        if e.i.kind == "range":
+            # phase 5: `v[a..]`: the rest from `a` (panics when `a > len`); the panic site is the source text
+            if e.i.hi is not None or e.i.inclusive:
+                self.fail("slice indexing other than `v[a..]`")
+            src = T.text_of(self.src_tokens(e)).replace(" ", "")
+            return self.with_args([e.a, e.i.lo], lambda a: App("Rs.slice_from", [Atom(self.site(src).text)] + a, eff=True))
         return self.with_args([e.a, e.i], lambda a: self.flow_app("Rs.index", [self.site("index out of bounds")] + a))
 
     def e_macro(self, e):
@@ -2009,6 +2225,38 @@ class FnTr:
             arms = [N("arm", pat=pat, guard=None, body=N("lit", lk="bool", text="true")),
                     N("arm", pat=N("pwild"), guard=None, body=N("lit", lk="bool", text="false"))]
             return self.e_match(N("match", scrut=scrut, arms=arms))
+        if e.name == "format":
+            # phase 5: `format!("…{}…", a, b)`: the literal pieces and the `Display` of the arguments, concatenated
+            items = split_commas(e.toks)
+            if not items or len(items[0]) != 1 or items[0][0].kind != "str":
+                self.fail("format! without a literal format string")
+            fmt = items[0][0].text
+            pieces = fmt.split("{}")
+            if "{" in "".join(pieces).replace("{{", "") or "}" in "".join(pieces).replace("}}", ""):
+                self.fail("format! with a placeholder other than `{}`")
+            args = []
+            for toks in items[1:]:
+                pz = Parser(toks, self.item.where)
+                args.append(pz.expr())
+                if not pz.eof():
+                    pz.fail("trailing tokens in format!")
+            if len(args) != len(pieces) - 1:
+                self.fail("format!: number of arguments")
+
+            def build(a):
+                parts = []
+                for k, piece in enumerate(pieces):
+                    if piece:
+                        parts.append(Atom(self.str_lit(piece)))
+                    if k < len(a):
+                        parts.append(App("Rs.to_string", [a[k]]))
+                if not parts:
+                    return Atom("([] : Str)")
+                node = parts[-1]
+                for x in reversed(parts[:-1]):
+                    node = App("Rs.push_str", [x, node])
+                return node
+            return self.with_args(args, build)
         macros = MACROS.get(self.item.file, {})
         if e.name in macros:
             return self.expr(self.expand_macro(e.name, macros[e.name], e.toks))
@@ -2187,6 +2435,8 @@ class FnTr:
             # an item of the associated numeric type: the `impl … for f64 / i64` of the default numeric types
             owner = "f64" if segs[-2] == "Float" else "i64"
             cands = [it for it in self.w.items if it.impl_type == owner and it.name == segs[-1] and it.impl_trait in TRANSLATED_TRAITS]
+            if not cands and (owner, segs[-1]) in PRIM_PATHS and (nargs is None or PRIM_PATHS[(owner, segs[-1])][0] == nargs):
+                return "std", PRIM_PATHS[(owner, segs[-1])][1], None      # phase 5: std trait fns of the primitive (FromStr)
             if len(cands) != 1:
                 self.fail(f"{owner}::{segs[-1]}: {len(cands)} candidates")
             g = self.w.require(cands[0])
@@ -2200,6 +2450,10 @@ class FnTr:
                 if len(bk) == 1 and len(segs) > 1 and segs[-2][0].isupper():
                     continue
                 return "boundary", lean, None
+        if len(segs) == 2 and segs[0] == "Self" and self.item.impl_type in ("i64", "f64") \
+                and (self.item.impl_type, segs[1]) in PRIM_PATHS and (nargs is None or PRIM_PATHS[(self.item.impl_type, segs[1])][0] == nargs) \
+                and not any(it.impl_type == self.item.impl_type and it.name == segs[1] for it in self.w.items):
+            return "std", PRIM_PATHS[(self.item.impl_type, segs[1])][1], None     # phase 5: `Self::from_str_radix` in `impl … for i64`
         if len(segs) >= 2 and (segs[-2] == "Self" or segs[-2][0].isupper()):
             owner = self.item.impl_type if segs[-2] == "Self" else segs[-2]
             if owner == "NumericTypes":
@@ -2224,8 +2478,11 @@ class FnTr:
 
     def call_gen(self, g, recv, args):
         """call of a translated function; `args` are the Rust argument expressions (without self)"""
-        if getattr(g, "has_loop", False):
-            self.fail(f"call of {g.lean_name}, a fuel-indexed function (contains a `loop`)")
+        fuel_arg = FUEL_CALLS.get((g.item.file, g.item.name)) if (g.has_loop and not self.g.has_loop) else None   # (tree-builder extension)
+        if g.has_loop and not self.g.has_loop and fuel_arg is None:
+            self.fail(f"call of the fuel-indexed function {g.lean_name} from a function that is not fuel-indexed")
+        if g.mut_self and g.conv != "pair" and not g.module in T2_MODULES:   # (tree-builder extension: those callees use `g.outs`)
+            self.fail(f"call of {g.lean_name} (`&mut self` with a loop)")
         exprs = list(args)
         if recv is None and g.item.self_kind is not None and len(exprs) == len(g.item.params) + 1:
             recv, exprs = exprs[0], exprs[1:]      # `Type::method(receiver, …)`
@@ -2244,8 +2501,43 @@ class FnTr:
                     self.fail(f"the context argument of {g.lean_name} is neither the context parameter nor a temporary built in place")
             elif not self.g.is_ctx:
                 self.fail(f"call of the context function {g.lean_name} from a function without a context parameter")
+        # ---- phase 5: `&mut` cursor arguments, fuel
+        rebind = []
+        if g.mut_params:
+            names = [n for n, _ in g.params if n not in ("fuel", "self")]
+            for k, (pn, _) in enumerate([p for p in g.params if p[0] not in ("fuel", "self")]):
+                if pn in g.mut_params:
+                    a = exprs[k]
+                    while a.kind == "paren":
+                        a = a.e
+                    if not (a.kind == "ref" and a.mut):
+                        self.fail(f"argument `{pn}` of {g.lean_name} must be `&mut <cursor>`")
+                    x = a.e
+                    while x.kind in ("paren", "ref"):
+                        x = x.e
+                    if not self.is_cursor_expr(x):
+                        self.fail(f"argument `{pn}` of {g.lean_name} is not a cursor variable")
+                    self.check_local_mut(x.segs[0])
+                    rebind.append(x.segs[0])
+                    exprs[k] = x
         allx = ([recv] if recv is not None else []) + exprs
         name = g.ref_name
+        if g.has_loop:
+            name = g.ref_name + " fuel"
+        if fuel_arg is not None:   # (tree-builder extension: FUEL_CALLS)
+            if rebind or g.is_ctx or recv is not None:
+                self.fail(f"{g.lean_name} is in FUEL_CALLS but is not a plain free function")
+            return self.with_args(allx, lambda a: App(g.ref_name, [App("Rs.fuel_chars", [a[fuel_arg]])] + a))
+        if rebind:
+            node = self.with_args(allx, lambda a: App(name, a))
+            if g.conv == "pair":
+                t = self.temp()
+                st, fin = (node.stmts, node.final) if isinstance(node, Seq) else ([], node)
+                st = st + [("let", t, fin)] + self.proj_rebinds(t, rebind)
+                return Seq(st, Atom(t + ".1"), any(k == "bind" for k, _, _ in st), False)
+            self.last_call_muts = rebind            # a `Res (value × cursors)`: must be consumed by `?`
+            return node
+        # ---- end phase 5
         if fresh is not None:
             return self.with_args([fresh] + allx, lambda a: App("Rs.call_fresh", [a[0], App(name, a[1:])]))
 
@@ -2326,6 +2618,25 @@ class FnTr:
                     self.fail(f"std method `{prim}::{name}`/{n} is not in the table of primitive methods")
                 return self.with_args([e.recv] + e.args, lambda a: App(PRIM_METHODS[(prim, name, n)], a))
         crate = [it for it in self.w.items if it.name == name and it.self_kind is not None and len(it.params) == n]
+        # ---- phase 5
+        if (name, n) == ("next", 0) and e.recv.kind == "path" and len(e.recv.segs) == 1 and e.recv.segs[0] in self.cursors \
+                and self.is_local(e.recv.segs[0]):
+            # `iter.next()` on a cursor: the first remaining character; the cursor becomes the rest
+            c = e.recv.segs[0]
+            self.check_local_mut(c)
+            t = self.temp()
+            st = [("let", t, App("Rs.iter_next", [Atom(lname(c))])), ("mut", lname(c), Atom(t + ".2"))]
+            return Seq(st, Atom(t + ".1"), False, False)
+        if name == "parse" and n == 0:
+            targs = getattr(e, "targs", [])
+            if len(targs) != 1:
+                self.fail("`parse` without an explicit target type")
+            ty = self.ltype(targs[0], False)
+            if ty not in ("Float", "Bool"):
+                self.fail("`parse::<" + ty + ">`")
+            head = {"Float": "Rs.parse_f64", "Bool": "Rs.parse_bool"}[ty]
+            return self.with_args([e.recv], lambda a: App(head, a))
+        # ---- end phase 5
         if (name, n) == ("next", 0) and e.recv.kind == "path" and len(e.recv.segs) == 1 and e.recv.segs[0] in self.entry_refs:
             # `r.next()` with `r` the `&mut` to a slice iterator stored in `self`: the first remaining item; the stored
             # iterator (and `r`) become the rest
@@ -2408,6 +2719,10 @@ class FnTr:
         return self.block(e, thread=self.take_thread())   # (tree-builder extension: thread)
 
     def e_if(self, e, over=None):
+        if over is None and not self.t2:
+            vb = self.value_branch(e)
+            if vb is not None:
+                return vb
         tc = self.take_thread()   # (tree-builder extension: the branches return the variables they assign)
         stmts = []
         c = self.atomize(e.cond, stmts)
@@ -2429,6 +2744,10 @@ class FnTr:
         return res
 
     def e_iflet(self, e, over=None):
+        if over is None and not self.t2:
+            vb = self.value_branch(e)
+            if vb is not None:
+                return vb
         arms = [N("arm", pat=e.pat, guard=None, body=e.then)]
         if not self.irrefutable(e.pat):
             arms.append(N("arm", pat=N("pwild"), guard=None, body=e.els if e.els is not None else N("tuple", items=[])))
@@ -2459,7 +2778,13 @@ class FnTr:
         return (fld, Atom(lname(k.segs[0]))) if sc.name == "get_mut" else (fld, None)
 
     def e_match(self, e, over=None):
+        if over is None and not self.t2 and not getattr(e, "synthetic", False):
+            vb = self.value_branch(e)
+            if vb is not None:
+                return vb
         tc = self.take_thread()   # (tree-builder extension: the arms return the variables they assign)
+        if not self.t2:
+            e = self.rewrite_last_mut(e)
         stmts = []
         live = []
         for a in e.arms:
@@ -2471,11 +2796,14 @@ class FnTr:
             else:
                 live.append(a)
         if len(live) != len(e.arms):
-            e = N("match", scrut=e.scrut, arms=live)
-        if any(a.pat.kind == "plit" and a.pat.tok.kind == "str" for a in e.arms):
+            e2 = N("match", scrut=e.scrut, arms=live)
+            e2.places = getattr(e, "places", {})
+            e = e2
+        if any(a.pat.kind == "plit" and a.pat.tok.kind in ("str", "char") for a in e.arms):
             if over is not None:
-                self.fail("string match whose arms assign outer variables")
+                return self.string_match(e, over)
             return self.string_match(e)
+        e = self.lift_nested_literals(e)
         lm = self.last_mut_scrutinee(e, stmts) if self.t2 else None   # (tree-builder extension: `match X.last_mut() { Some(r) … }`)
         gm = self.get_mut_scrutinee(e) if lm is None else None
         if lm is not None:
@@ -2496,6 +2824,12 @@ class FnTr:
             pats = self.pats(a.pat, bound)
             self.push(bound)
             saved_refs = dict(self.entry_refs)
+            saved_places = dict(self.places)
+            for b in bound:
+                if b in getattr(e, "places", {}):
+                    self.places[b] = e.places[b]
+                else:
+                    self.places.pop(b, None)
             if gm is not None:
                 for b in bound:
                     self.entry_refs[b] = gm
@@ -2513,55 +2847,166 @@ class FnTr:
             else:
                 body = self.expr(a.body)
             self.entry_refs = saved_refs
+            self.places = saved_places
             self.pop()
-            arms.append((pats, guard, body, self.irrefutable(a.pat)))
+            arms.append((pats, guard, body, self.irrefutable(a.pat), a.pat))
         res = mkseq(stmts, self.build_match(s, arms))
         if tc is not None and isinstance(res, Seq):
             res.blockscope = True
         return res
 
-    def string_match(self, e):
-        """`match s { "lit" => e, …, _ => d }` on strings: a chain of `if s == "lit"` (string literals are not constructors)"""
+    def string_match(self, e, over=None):
+        """`match s { "lit" | 'c' => e, …, x => d }` on strings / characters: a chain of `if s == lit` (literals are not
+        constructors); the last arm is `_` or a binding"""
         stmts = []
         s = self.atomize(e.scrut, stmts)
         if not is_simple(s):
             t = self.temp()
             stmts.append(("let", t, s))
             s = Atom(t)
+        body_of = (lambda b: self.expr(b)) if over is None else (lambda b: self.with_tail(b, over))
         arms = []
         default = None
         for k, a in enumerate(e.arms):
             if a.guard is not None:
-                self.fail("guard in a string match")
-            if a.pat.kind == "pwild":
+                self.fail("guard in a literal match")
+            alts = a.pat.alts if a.pat.kind == "por" else [a.pat]
+            if a.pat.kind == "pwild" or (a.pat.kind in ("ppath", "pident") and self.irrefutable(a.pat)):
                 if k != len(e.arms) - 1:
-                    self.fail("`_` arm that is not the last arm of a string match")
-                default = self.expr(a.body)
-            elif a.pat.kind == "plit" and a.pat.tok.kind == "str":
-                arms.append((self.e_lit(N("lit", lk="str", text=a.pat.tok.text)), self.expr(a.body)))
+                    self.fail("catch-all arm that is not the last arm of a literal match")
+                if a.pat.kind == "pwild":
+                    default = body_of(a.body)
+                else:
+                    nm = a.pat.name if a.pat.kind == "pident" else a.pat.segs[0]
+                    self.push([nm])
+                    d = body_of(a.body)
+                    self.pop()
+                    default = mkseq([("let", lname(nm), s)], d)
+            elif all(x.kind == "plit" and x.tok.kind in ("str", "char") for x in alts):
+                lits = [self.e_lit(N("lit", lk=x.tok.kind, text=x.tok.text)) for x in alts]
+                arms.append((lits, body_of(a.body)))
             else:
-                self.fail("pattern in a string match")
+                self.fail("pattern in a literal match")
         if default is None:
-            self.fail("string match without a `_` arm")
+            self.fail("literal match without a catch-all arm")
         eff = default.eff or any(b.eff for _, b in arms)
         node = lift(default) if eff else default
-        for lit, body in reversed(arms):
-            node = If(App("Rs.eq", [s, lit]), lift(body) if eff else body, node, eff, False)
+        for lits, body in reversed(arms):
+            cond = App("Rs.eq", [s, lits[0]])
+            for l in lits[1:]:
+                cond = App("or", [cond, App("Rs.eq", [s, l])])
+            node = If(cond, lift(body) if eff else body, node, eff, False)
         return mkseq(stmts, node)
+
+    def rewrite_last_mut(self, e):
+        """phase 5: `V.last_mut()` (V a local vector) inside the scrutinee: read as `V.last()`; a variable bound by the
+        pattern `Some(Ctor(r))` at that position is a place: writes through it rebuild the last element of `V`"""
+        sc = e.scrut
+        items = sc.items if sc.kind == "tuple" else [sc]
+        hit = None
+        for k, it in enumerate(items):
+            x = it
+            while x.kind in ("paren", "ref"):
+                x = x.e
+            if x.kind == "mcall" and x.name == "last_mut" and not x.args and x.recv.kind == "path" and len(x.recv.segs) == 1 \
+                    and self.is_local(x.recv.segs[0]) and not self.self_field(x.recv):
+                if hit is not None:
+                    self.fail("two `last_mut()` in one scrutinee")
+                hit = (k, x.recv.segs[0])
+        if hit is None:
+            return e
+        k, vec = hit
+        new_items = list(items)
+        new_items[k] = N("mcall", recv=N("path", segs=[vec]), name="last", args=[], targs=[])
+        scrut = N("tuple", items=new_items) if sc.kind == "tuple" else new_items[0]
+        places = {}
+        for a in e.arms:
+            p = a.pat
+            if sc.kind == "tuple":
+                if p.kind != "ptuple":
+                    continue
+                p = p.items[k]
+            if p.kind == "ptuplestruct" and p.segs == ["Some"] and len(p.items) == 1:
+                q = p.items[0]
+                if q.kind == "ptuplestruct" and len(q.items) == 1 and q.items[0].kind in ("ppath", "pident"):
+                    v = self.variant(q.segs)
+                    if v:
+                        r = q.items[0]
+                        places[r.name if r.kind == "pident" else r.segs[0]] = (vec, ENUM_MAP[v[0]][v[1]][0])
+                        continue
+                if not self.irrefutable(q):
+                    self.fail("pattern under `last_mut()`: only `Some(Variant(r))` binds a place")
+        m = N("match", scrut=scrut, arms=e.arms)
+        m.places = places
+        return m
+
+    def lift_nested_literals(self, e):
+        """literal sub-patterns (`Some('"')`) become fresh variables compared in a guard: `Some(ℓ) if ℓ == '"'`"""
+        counter = [0]
+
+        def walk(p, conds):
+            if p.kind == "plit" and p.tok.kind in ("str", "char"):
+                counter[0] += 1
+                self.nlit += 1
+                nm = "ℓ" + str(self.nlit)
+                conds.append(N("binary", op="==", l=N("path", segs=[nm]), r=N("lit", lk=p.tok.kind, text=p.tok.text)))
+                return N("pident", name=nm)
+            if p.kind in ("ptuple", "ptuplestruct"):
+                q = N(p.kind, **{k: v for k, v in p.__dict__.items() if k != "kind"})
+                q.items = [walk(x, conds) for x in p.items]
+                return q
+            return p
+        arms = []
+        for a in e.arms:
+            conds = []
+            pat = walk(a.pat, conds) if a.pat.kind != "por" else a.pat
+            if not conds:
+                arms.append(a)
+                continue
+            g = a.guard
+            for c in reversed(conds):
+                g = c if g is None else N("binary", op="&&", l=c, r=g)
+            arms.append(N("arm", pat=pat, guard=g, body=a.body, cfg=getattr(a, "cfg", None)))
+        if not counter[0]:
+            return e
+        m = N("match", scrut=e.scrut, arms=arms)
+        m.places = getattr(e, "places", {})
+        return m
+
+    @staticmethod
+    def covers(p, q):
+        """does pattern `p` match everything pattern `q` matches (syntactic approximation; False when unsure)"""
+        if FnTr.irrefutable(p):
+            return True
+        if q.kind == "por":
+            return all(FnTr.covers(p, x) for x in q.alts)
+        if p.kind == "por":
+            return any(FnTr.covers(x, q) for x in p.alts)
+        if p.kind != q.kind:
+            return False
+        if p.kind == "ppath":
+            return p.segs[-1] == q.segs[-1]
+        if p.kind == "ptuplestruct":
+            return p.segs[-1] == q.segs[-1] and len(p.items) == len(q.items) and all(FnTr.covers(a, b) for a, b in zip(p.items, q.items))
+        if p.kind == "ptuple":
+            return len(p.items) == len(q.items) and all(FnTr.covers(a, b) for a, b in zip(p.items, q.items))
+        return False
 
     def build_match(self, s, arms):
         gi = next((i for i, a in enumerate(arms) if a[1] is not None), None)
         if gi is None:
-            eff = any(b.eff for _, _, b, _ in arms)
-            ctx = any(b.ctx for _, _, b, _ in arms)
-            return Match([s], [(p, lift(b) if eff else b) for p, _, b, _ in arms], eff, ctx)
+            eff = any(a[2].eff for a in arms)
+            ctx = any(a[2].ctx for a in arms)
+            return Match([s], [(a[0], lift(a[2]) if eff else a[2]) for a in arms], eff, ctx)
         # `p if g => e`: match p, test g, else continue with the remaining arms (shared through a thunk)
-        pats, guard, body, irref = arms[gi]
+        pats, guard, body, irref, gpat = arms[gi]
         if not arms[gi + 1:]:
             self.fail("a guarded arm is the last arm")
-        rest = self.build_match(s, arms[gi + 1:])
-        eff = rest.eff or body.eff or guard.eff or any(b.eff for _, _, b, _ in arms[:gi])
-        ctx = rest.ctx or body.ctx or guard.ctx or any(b.ctx for _, _, b, _ in arms[:gi])
+        # the arms before the guarded one are repeated in the continuation: they cannot match there (same scrutinee), but
+        # Lean needs them to see that the continuation's match is exhaustive
+        rest = self.build_match(s, arms[:gi] + arms[gi + 1:])
+        eff = rest.eff or body.eff or guard.eff or any(a[2].eff for a in arms[:gi])
+        ctx = rest.ctx or body.ctx or guard.ctx or any(a[2].ctx for a in arms[:gi])
         k = "κ" + str(self.ntemp + 1)
         self.ntemp += 1
         up = (lambda n: lift(n)) if eff else (lambda n: n)
@@ -2574,21 +3019,55 @@ class FnTr:
         else:
             gatom = guard
         garm = mkseq(gst, If(gatom, up(body), kcall, eff, ctx))
-        marms = [(p, up(b)) for p, _, b, _ in arms[:gi]] + [(pats, garm)]
-        if not irref:
+        marms = [(a[0], up(a[2])) for a in arms[:gi]] + [(pats, garm)]
+        # a catch-all arm that continues with the later arms — unless every later arm is already covered by the guarded
+        # pattern or an earlier arm (then, by Rust's exhaustiveness, nothing else can reach it and Lean would reject it)
+        earlier = [a[4] for a in arms[:gi]] + [gpat]
+        if not irref and any(not any(self.covers(p, a[4]) for p in earlier) for a in arms[gi + 1:]):
             marms.append((["_"], kcall))
         return mkseq([("let", k, Lam(["(_ : Unit)"], up(rest)))], Match([s], marms, eff, ctx))
 
     # ---- blocks and statements
+    # ---- phase 5: a branching EXPRESSION whose arms assign locals of the enclosing block: the arms return (value, locals…)
+    class Over(list):
+        value = True
+
+    def value_branch(self, e):
+        if self.in_value_branch:
+            return None
+        muts = []
+        self.assigned_locals(e, muts)
+        if not muts:
+            return None
+        for m in muts:
+            if not self.assignable(m):
+                self.fail(f"a branch assigns `{m}`, which is not a variable of the enclosing block")
+        muts.sort(key=lambda m: self.order_of[m])
+        ov = FnTr.Over(muts)
+        self.in_value_branch = True
+        n = {"if": self.e_if, "iflet": self.e_iflet, "match": self.e_match}[e.kind](e, ov)
+        self.in_value_branch = False
+        t = self.temp()
+        pat = "(" + ", ".join([t] + [lname(m) for m in muts]) + ")"
+        return Seq([("mutbind" if n.eff else "mut", pat, n)], Atom(t), False, False)
+
     def state_text(self, muts):
+        if getattr(muts, "value", False):
+            self.fail("internal: state_text of a value branch")
         if not muts:
             return "()"
         return lname(muts[0]) if len(muts) == 1 else "(" + ", ".join(lname(m) for m in muts) + ")"
 
+    def over_final(self, over, value):
+        """what a branch returns: the tuple of the assigned locals, preceded by the branch's value for a value branch"""
+        if getattr(over, "value", False):
+            return PureM(Tup([value] + [Atom(lname(m)) for m in over]))
+        return PureM(Atom(self.state_text(over)))
+
     def with_tail(self, e, over):
         """translate a branch of a statement that assigns the outer locals `over`: every path ends with their tuple"""
         if e is None:
-            return PureM(Atom(self.state_text(over)))
+            return self.over_final(over, Tup([]))
         if e.kind == "block":
             return self.block(e, over)
         if e.kind == "if":
@@ -2598,9 +3077,14 @@ class FnTr:
         if e.kind == "match":
             return self.e_match(e, over)
         self.push(over)
-        n = self.expr(e)
+        st = []
+        if getattr(over, "value", False):
+            v = self.atomize(e, st)
+            self.pop()
+            return mkseq(st, self.over_final(over, v))
+        self.stmt(N("exprstmt", e=e), st)       # an arm `=> expr` of a statement-level branch: `expr` is a statement
         self.pop()
-        return mkseq(bind_stmts("_", n), PureM(Atom(self.state_text(over))))
+        return mkseq(st, self.over_final(over, Tup([])))
 
     def block(self, b, over=None, thread=None, merge=False):
         # (tree-builder extension: `thread`: the outer variables the block may assign — their final values become part of the block's
@@ -2625,11 +3109,16 @@ class FnTr:
             # a `()`-valued mutation in tail position: a statement, then `()`
             self.stmt(N("exprstmt", e=tail), stmts)
             tail = None
-        if over is not None:
+        if over is not None and getattr(over, "value", False):
+            if tail is not None and tail.kind in ("if", "iflet", "match"):
+                final = self.with_tail(tail, over)
+            else:
+                v = self.atomize(tail, stmts) if tail is not None else Tup([])
+                final = self.over_final(over, v)
+        elif over is not None:
             if tail is not None:
                 self.stmt(N("exprstmt", e=tail), stmts)
             final = PureM(Atom(self.state_text(over)))
-            self.thread_sets.pop()
         else:
             # ---- tree-builder extension: a branching tail expression whose branches assign outer variables
             final = None
@@ -2656,8 +3145,8 @@ class FnTr:
                     if not (isinstance(final, Tup) and not final.items):
                         stmts.extend(bind_stmts("_", final))
                     final = names[0] if len(names) == 1 else Tup(names)
-            self.thread_sets.pop()
             # ---- end of the tree-builder extension
+        self.thread_sets.pop()
         self.globs = saved_globs
         if self.div.pop():
             # control does not leave a block that ends with `return`: what it did to the references is not visible after it
@@ -2675,7 +3164,7 @@ class FnTr:
             e = e.e
         if e.kind == "path" and len(e.segs) == 1 and self.is_local(e.segs[0]):
             name = e.segs[0]
-            if not self.can_mutate(name):   # (tree-builder extension: was `name not in self.frames[-1]`)
+            if not (self.can_mutate(name) if self.t2 else self.assignable(name)):   # (tree-builder extension: can_mutate)
                 self.fail(f"mutation of `{name}` from a nested block / branch (the rebinding would not escape)")
             return name
         return None
@@ -2708,6 +3197,10 @@ class FnTr:
                 self.declare(b)
                 if b in self.g.outs:   # (tree-builder extension)
                     self.fail(f"`let {b}` shadows a `&mut` parameter")
+                self.cursors.discard(b)
+            x = st.init
+            if len(bound) == 1 and x.kind == "mcall" and x.name in ("peekable", "chars") and not x.args:
+                self.cursors.add(bound[0])          # phase 5: `let mut iter = s.chars().peekable()`: a cursor
             return
         e = st.e
         if self.t2 and self.stmt_ext(e, stmts):   # (tree-builder extension: loops, branching statements that assign, mutations of places)
@@ -2715,6 +3208,28 @@ class FnTr:
         if self.g.mut_self and self.self_stmt(e, stmts):
             self.after_rebind("self", stmts)   # (tree-builder extension)
             return
+        # ---- phase 5
+        if e.kind == "mcall" and e.recv.kind == "path" and len(e.recv.segs) == 1 and e.recv.segs[0] in self.places \
+                and (e.name, len(e.args)) in STD_MUTATORS:
+            # `r.push_str(x)` with `r` the `&mut` into the payload of the last element of a vector: that element rebuilt
+            r = e.recv.segs[0]
+            vec, ctor = self.places[r]
+            self.check_local_mut(vec)
+            head = STD_MUTATORS[(e.name, len(e.args))]
+            n = self.with_args(e.args, lambda a: App("Rs.set_last", [Atom(lname(vec)), App(ctor, [App(head, [Atom(lname(r))] + a)])]))
+            stmts.extend(bind_stmts(lname(vec), n) if not isinstance(n, Seq) else n.stmts + [("mut", lname(vec), n.final)])
+            self.dead_refs.add(r)
+            return
+        if e.kind in ("while", "whilelet") or (e.kind == "for" and self.is_cursor_expr(e.iter)):
+            self.loopb_stmt(e, stmts)
+            return
+        if not self.t2 and e.kind in ("break", "continue"):   # (tree-builder extension: there `break` / `continue` are `Rs.brk` / `Rs.cont`)
+            if not self.loopb:
+                self.fail(f"`{e.kind}` outside a `while` / `for`-over-iterator loop")
+            out = "Rs.LoopOut.brk" if e.kind == "break" else "Rs.LoopOut.cont"
+            stmts.append(("bind", "_ : Unit", App("Rs.ret", [App(out, [Atom(self.state_text(self.loopb[-1]))])], eff=True)))
+            return
+        # ---- end phase 5
         if e.kind == "mcall" and (e.name, len(e.args)) in STD_MUTATORS:
             name = self.local_target(e.recv)
             if name is None:
@@ -2744,7 +3259,7 @@ class FnTr:
             if muts:
                 # a branching statement that assigns locals of the enclosing block: the branches return their new values
                 for m in muts:
-                    if m not in self.frames[-1] and m != "self":
+                    if not self.assignable(m):
                         self.fail(f"a branch assigns `{m}`, which is not a variable of the enclosing block")
                 muts.sort(key=lambda m: self.order_of[m])
                 n = self.with_tail(e, muts)
@@ -2761,6 +3276,14 @@ class FnTr:
         if e.kind == "field" and e.e.kind == "path" and e.e.segs == ["self"] and (self.item.impl_type, e.name) in FIELD_UPDATE:
             return e.name
         return None
+
+    def assignable(self, name):
+        """may `name` be rebound here: a variable of the innermost block (or a parameter, in the function's body block)"""
+        return name in self.frames[-1] or (len(self.frames) == 2 and name in self.frames[0]) or (name == "self" and self.g.mut_self)
+
+    def check_local_mut(self, name):
+        if not self.assignable(name):
+            self.fail(f"mutation of `{name}` from a nested block / branch (the rebinding would not escape)")
 
     def check_self_mut(self):
         # directly in the body block, in a block that ends with `return` (which carries the current `self`), or in a branch /
@@ -2832,6 +3355,22 @@ class FnTr:
                         any(it.name == node.name and it.self_kind == "&mut" and it.impl_type == self.item.impl_type for it in self.w.items)))
                 if hits_self:
                     acc.append("self")
+            # phase 5: cursor advanced, `&mut x` handed to a call, vector reached through `last_mut()`
+            def loc(x):
+                while x.kind in ("paren",):
+                    x = x.e
+                return x.segs[0] if x.kind == "path" and len(x.segs) == 1 and self.is_local(x.segs[0]) else None
+            if node.kind == "mcall" and node.name == "next" and not node.args and loc(node.recv) in self.cursors:
+                if loc(node.recv) not in acc:
+                    acc.append(loc(node.recv))
+            if node.kind in ("call", "mcall"):
+                for a in node.args:
+                    if a.kind == "ref" and a.mut and loc(a.e) and loc(a.e) not in acc:
+                        acc.append(loc(a.e))
+            if node.kind == "mcall" and node.name == "last_mut" and loc(node.recv) and loc(node.recv) not in acc:
+                acc.append(loc(node.recv))
+            if node.kind == "for" and loc(node.iter) in self.cursors and loc(node.iter) not in acc:
+                acc.append(loc(node.iter))
             if node.kind == "mcall" and (node.name, len(node.args)) in STD_MUTATORS and node.recv.kind == "path" and len(node.recv.segs) == 1:
                 if self.is_local(node.recv.segs[0]) and node.recv.segs[0] not in acc:
                     acc.append(node.recv.segs[0])
@@ -2845,6 +3384,49 @@ class FnTr:
         elif isinstance(node, (list, tuple)):
             for v in node:
                 self.assigned_locals(v, acc)
+
+    # ---- phase 5: `while`, `while let`, `for` over a cursor: `Rs.loopB` with `break` / `continue`
+    def is_cursor_expr(self, x):
+        while x.kind in ("paren", "ref"):
+            x = x.e
+        return x.kind == "path" and len(x.segs) == 1 and x.segs[0] in self.cursors and self.is_local(x.segs[0])
+
+    def loopb_stmt(self, e, stmts):
+        if not self.g.has_loop or self.in_closure:
+            self.fail("loop outside a fuel-indexed function body")
+        brk = N("block", stmts=[N("exprstmt", e=N("break"))], tail=None)
+        if e.kind == "while":
+            step = N("if", cond=e.cond, then=e.body, els=brk)
+        elif e.kind == "whilelet":
+            step = N("iflet", pat=e.pat, scrut=e.scrut, then=e.body, els=brk)
+        else:   # `for x in cursor`: `while let Some(x) = cursor.next()`
+            it = e.iter
+            while it.kind in ("paren", "ref"):
+                it = it.e
+            nxt = N("mcall", recv=it, name="next", args=[], targs=[])
+            step = N("iflet", pat=N("ptuplestruct", segs=["Some"], items=[e.pat]), scrut=nxt, then=e.body, els=brk)
+        muts = []
+        self.assigned_locals(step, muts)
+        for m in muts:
+            if not self.assignable(m):
+                self.fail(f"the loop assigns `{m}`, which is not a variable of the enclosing block")
+        muts.sort(key=lambda m: self.order_of[m])
+        state = self.state_text(muts)
+        self.loop_depth += 1
+        self.loopb.append(muts)
+        self.push(muts)
+        saved_div = self.div
+        self.div = []
+        body_stmts = []
+        self.stmt(N("exprstmt", e=step), body_stmts)
+        self.div = saved_div
+        self.pop()
+        self.loopb.pop()
+        self.loop_depth -= 1
+        body = mkseq(body_stmts, PureM(App("Rs.LoopOut.cont", [Atom(state)])))
+        loop = App("Rs.loopB", [Atom(self.site("loop: out of fuel").text), Atom("fuel"), Atom(state),
+                                Lam([state if muts else "_"], App("Rs.Flow.run", [body]))], eff=True)
+        stmts.append(("bind", state if muts else "_", loop))
 
     def e_loop(self, e):
         if self.t2:   # (tree-builder extension: loops are statements there, see loop_stmt)
@@ -3505,6 +4087,7 @@ class FnTr:
         p = Parser(it.body_toks, it.where)
         body = p.block()
         names = [n for n, _ in g.params if n not in ("_", "fuel")]
+        self.cursors = set(g.mut_params)
         if g.is_ctx:
             names.append(g.ctx_param)
         if it.self_kind:
@@ -3549,14 +4132,13 @@ class FnTr:
             unfold = sorted({d.lean_name for d in g.deps if d is not g and not d.is_ctx})
             term = ("termination_by sizeOf self\ndecreasing_by all_goals ((try simp only [" + ", ".join(unfold) +
                     "] at *); exact Rs.node_lt (by assumption))\n")
-        if g.outs:   # (tree-builder extension: was `if g.mut_self`, with `self` the only out)
-            # the value of the body and the final `self` (the rebindings of `self` are statements of the body block)
+        if self.t2 and g.outs:   # (tree-builder extension: the value of the body and the final values of all outs)
             st, fin = (node.stmts, node.final) if isinstance(node, Seq) else ([], node)
-            res = Tup([Atom(TEMP + "r")] + [Atom(lname(o)) for o in g.outs])   # (tree-builder extension: all outs)
-            node = mkseq(st + bind_stmts(TEMP + "r", fin), App("Except.ok", [res]) if g.has_loop else res)
-        elif g.has_loop:
+            node = mkseq(st + bind_stmts(TEMP + "r", fin), Tup([Atom(TEMP + "r")] + [Atom(lname(o)) for o in g.outs]))
+        elif g.conv is not None:
+            # the value of the body with the final `self` / cursors (their rebindings are statements of the body block)
             st, fin = (node.stmts, node.final) if isinstance(node, Seq) else ([], node)
-            node = mkseq(st + bind_stmts(TEMP + "r", fin), App("Except.ok", [Atom(TEMP + "r")]))
+            node = mkseq(st + bind_stmts(TEMP + "r", fin), self.ret_value(Atom(TEMP + "r")))
         if g.div:   # (tree-builder extension)
             head = f"def {g.lean_name}{params} : Option ({g.ret}) :=\n  Rs.D.run "
             text = doc + head + render(lift(node), 2, True)
@@ -3628,6 +4210,11 @@ ROOTS = [
     ("tree/iter.rs", "NodeIter", "next"), ("tree/iter.rs", "OperatorIterMut", "next"),
     ("tree/iter.rs", "NodeIter", "new"), ("tree/iter.rs", "OperatorIterMut", "new"),
     ("function/builtin.rs", None, "builtin_function"),
+    ("token/mod.rs", None, "char_to_partial_token"), ("token/mod.rs", None, "parse_dec_or_hex"),
+    ("token/mod.rs", None, "parse_escape_sequence"), ("token/mod.rs", None, "parse_string_literal"),
+    ("token/mod.rs", None, "try_skip_comment"), ("token/mod.rs", None, "str_to_partial_tokens"),
+    ("token/mod.rs", None, "partial_tokens_to_tokens"), ("token/mod.rs", None, "tokenize"),
+    ("value/numeric_types/default_numeric_types.rs", "i64", "from_hex_str"),
     ("value/numeric_types/default_numeric_types.rs", "i64", "bit_shift_left"),
     ("value/numeric_types/default_numeric_types.rs", "i64", "bit_shift_right"),
 ] + [("value/numeric_types/default_numeric_types.rs", "i64", n) for n in ['checked_add', 'checked_sub', 'checked_neg', 'checked_mul', 'checked_div', 'checked_rem', 'abs', 'bitand', 'bitor', 'bitxor', 'bitnot', 'from_usize', 'into_usize']] + [
@@ -3702,6 +4289,13 @@ def header(module, imports):
     lines.append("   * `macro_rules!` invocations (simple_math!, int_function!) are expanded by the translator (literal tokens and `$x:ident` only);")
     lines.append("     `match` on string literals ↦ chain of `if s == \"lit\"`; match arms under #[cfg(feature = \"regex\" | \"rand\")] are NOT")
     lines.append("     modelled and skipped" + (": " + ", ".join(sorted({a[2] for a in SKIPPED_ARMS})) if SKIPPED_ARMS else ""))
+    lines.append("   * lexer (src/token/mod.rs): char::is_whitespace ↦ isWhitespace;  char::is_ascii_digit ↦ F64.isDigit;  str::parse::<f64> ↦ F64.parse;")
+    lines.append("       str::parse::<bool> ↦ parseBool;  i64::from_str ↦ F64.parseDec;  i64::from_str_radix(_, 16) ↦ F64.parseHex (other radixes: not modelled);")
+    lines.append("       Display for PartialToken (token/display.rs, not translated) ↦ PartialToken.display;  derived PartialEq for Token / PartialToken ↦")
+    lines.append("       Rs.tokenBeq (Prelude);  str::chars / Peekable ↦ the list of the remaining characters (next ↦ Rs.iter_next, peek ↦ head?);")
+    lines.append("       strip_prefix, starts_with(closure), bool::then, Option::flatten, Result::ok, Vec::extend(Option), v[a..] ↦ Prelude definitions")
+    lines.append("     `while` / `while let` / `for` over an iterator, with `break` / `continue` ↦ Rs.loopB (fuel-indexed like `loop`); a function with a")
+    lines.append("     `&mut` iterator parameter returns the advanced cursor with its value (`Res (value × cursor)`, consumed by `?` at the call)")
     lines.append("   * `loop { … }` (left by `return` only) ↦ Rs.loop: the generated function takes `fuel : Nat` and returns `Res`; out of fuel ↦")
     lines.append("     .error (.panic \"… out of fuel\") (no termination assumption: the agreement theorems prove how much fuel suffices);")
     lines.append("     NodeIter / OperatorIterMut { stack: Vec<slice::Iter<Node>> } ↦ Rs.IterStack (Vec, top = last, of the remaining children);")
@@ -3711,6 +4305,9 @@ def header(module, imports):
     lines.append("     termination argument assumed). A call of such a function from code translated as total is rendered `Rs.converged`:")
     for f_, n_ in sorted(CONVERGED_CALLS):
         lines.append(f"       {f_}::{n_}  ↦ Rs.converged \"{n_}: diverges\" (Gen.{n_} …)   (divergence = a panic outcome no Model function produces)")
+    for (f_, n_), k_ in sorted(FUEL_CALLS.items()):
+        lines.append(f"     a call of the fuel-indexed {f_}::{n_} from code translated as total ↦ Gen.{n_} (Rs.fuel_chars <argument {k_ + 1}>) …  (fuel = length + 1;")
+        lines.append("       sufficiency is proved by the caller's agreement theorem, not assumed)")
     lines.append("   * places (tree-builder extension): `&mut` parameters / `&mut self` are returned next to the result; a local bound to")
     lines.append("     `X.last_mut().unwrap()` / `&mut P` / the `Some(r)` of `match X.last_mut()` is a copy of the place's value that is written back")
     lines.append("     (`Rs.set_last`, `{ x with f := … }`) after every mutation through it (Rust's borrow rules: no other access while it lives);")
@@ -3756,12 +4353,32 @@ def run():
         if len(c) != 1:
             raise Untranslatable(f"impl Default for {owner}: {len(c)} candidates", file)
         w.require(c[0])
+    top = [g for g in w.order]        # (tree-builder extension, FUEL_CALLS) the From / Default impls, in translation order
     for file, owner, name in ROOTS:
         c = [it for it in w.find(file, owner, name)
              if it.impl_trait in (None, "<trait>", "Context", "ContextWithMutableVariables", "ContextWithMutableFunctions") + TRANSLATED_TRAITS]
         if len(c) != 1:
             raise Untranslatable(f"{len(c)} items named {name}", f"{file}::{(owner + '::') if owner else ''}{name}")
-        w.require(c[0])
+        top.append(w.require(c[0]))
+    # ---- tree-builder extension (FUEL_CALLS): the emission order is the order in which the functions would be reached from the
+    # roots if the FUEL_CALLS callees were still boundary calls (depth-first, callees first) — i.e. the order of phase 5 —, so that
+    # making `tokenize` a translated callee of the interface functions does not move the lexer functions inside their modules
+    seen, order2 = set(), []
+
+    def visit(g):
+        if id(g) in seen:
+            return
+        seen.add(id(g))
+        for d in g.deps:
+            if (d.item.file, d.item.name) in FUEL_CALLS and not g.has_loop:
+                continue
+            visit(d)
+        order2.append(g)
+    for g in top:
+        visit(g)
+    if len(order2) != len(w.order):
+        raise Untranslatable("internal: emission order", "run")
+    w.order = order2
     SKIPPED_ARMS[:] = w.skipped_arms
     # group by module, check the module dependency order
     by_mod = {m: [] for m in MODULE_ORDER}
